@@ -66,11 +66,19 @@ _installed = {}
 
 
 def install_symtables():
-    """Replace serialization.origins by a SymTable built from the real table (idempotent)."""
+    """Replace serialization.origins by a SymTable built from the real table (idempotent); shim int()
+    in the integer-kernel modules; floats (if a refactoring introduces them) are bit-precise IEEE."""
+    from symx import floats as sf
     s = ser()
     if not isinstance(s.origins, SymTable):
         _installed["origins"] = s.origins
         s.origins = SymTable(s.origins)
+    for modname in ("a5.core.serialization", "a5.core.compact", "a5.core.cell_info"):
+        m = importlib.import_module(modname)
+        m.int = sf.to_int
+    c = sx._CTX
+    if c is not None and getattr(c, "float_mode", None) is None:
+        sf.install_float_mode(c, "fp")
     return s
 
 
@@ -133,3 +141,13 @@ def same_cell(a, b):
     if ra >= 2:
         conds.append(Sa == Sb)
     return sx.And(*conds)
+
+
+def int_shims(c):
+    """int() shim + bit-precise float mode without the symbolic origins view (C05 forks over faces)."""
+    from symx import floats as sf
+    for modname in ("a5.core.serialization", "a5.core.compact", "a5.core.cell_info"):
+        m = importlib.import_module(modname)
+        m.int = sf.to_int
+    if getattr(c, "float_mode", None) is None:
+        sf.install_float_mode(c, "fp")
